@@ -11,6 +11,8 @@ package c04
 import (
 	"bytes"
 	"context"
+	"fmt"
+	"os"
 	"path/filepath"
 	"strings"
 	"syscall"
@@ -133,6 +135,9 @@ func runPlan(c *pbt.Case, p Plan) {
 	newConn := func() {
 		conn = pager.NewConn(n.M, model, 100)
 		conn.JournalMode, conn.Sync = p.Mode, pager.SyncNormal
+		if os.Getenv("VERIF_OPLOG") != "" {
+			conn.OnOp = func(op string) { fmt.Fprintln(os.Stderr, "OP", op) }
+		}
 	}
 	newConn()
 	defer func() { conn.Close() }()
